@@ -20,7 +20,7 @@ ASSUMPTIONS = [
     "amplitudes are computed by the reference Fock amplitude (permutation-sum permanent) from the library's own U_full and herald dictionaries; the Simulator path is C03",
 ]
 BOUNDS = {
-    "quick": "all 13 single-qubit gates (rotation angle symbolic), CZ, CNOT(0/1), CZ_Heralded, CNOT_Heralded(0/1), SWAP on all mode pairs of <=5 modes; every dual-rail basis input; all outputs of the same photon number on the user modes",
+    "quick": "all 13 single-qubit gates (rotation angle symbolic; each rotation gate also constructed after other rotation gates with the same angle), CZ, CNOT(0/1), CZ_Heralded, CNOT_Heralded(0/1), SWAP on all mode pairs of <=5 modes; every dual-rail basis input; all outputs of the same photon number on the user modes",
     "thorough": "adds CCZ and CCNOT(0/1/2) and SWAP on <=6 modes",
 }
 OUTSIDE = "superpositions follow by linearity (stated); float rounding"
@@ -102,6 +102,11 @@ def h_gate(ctx, name, arg):
     q = lw.qubit
     if name in ("P", "Rx", "Ry", "Rz"):
         theta = ctx.angle("theta", 2)
+        if arg == "after-others":
+            # a gate is the named gate whatever was constructed before it in the same process
+            # (the same angle used for other rotation gates and for this one)
+            for other in ("Rx", "Ry", "Rx", "Rz", "P", name):
+                getattr(q, other)(theta)
         gate = getattr(q, name)(theta)
         G = gate_matrix(ctx, name, theta)
         nq = 1
@@ -177,6 +182,8 @@ def cases(tier):
     out = []
     for nm in ("I", "H", "X", "Y", "Z", "S", "Sadj", "T", "Tadj", "SX", "P", "Rx", "Ry", "Rz"):
         out.append(dict(name=nm, arg=None))
+    for nm in ("P", "Rx", "Ry", "Rz"):
+        out.append(dict(name=nm, arg="after-others"))
     out.append(dict(name="CZ", arg=None))
     out.append(dict(name="CZ_Heralded", arg=None))
     for t in (0, 1):
